@@ -29,14 +29,40 @@ MUTATORS = {'append', 'extend', 'insert', 'pop', 'remove', 'clear', 'update', 's
             '__setattr__', '__delattr__', 'appendleft', 'extendleft'}
 
 
-def _rooted_at_self(node):
-    """is `node` an attribute/subscript chain starting at the name `self` (and longer than `self`)?"""
+def self_aliases(fn):
+    """names that may hold `self` inside method `fn`: `self` and every local assigned from one of them
+    (`me = self`, `a = b = self`, `x: Iter = me`, `(me := self)`), to a fixed point"""
+    al = {'self'}
+    changed = True
+    while changed:
+        changed = False
+        for n in ast.walk(fn):
+            val, tgts = None, []
+            if isinstance(n, ast.Assign):
+                val, tgts = n.value, n.targets
+            elif isinstance(n, ast.AnnAssign) and n.value is not None:
+                val, tgts = n.value, [n.target]
+            elif isinstance(n, ast.NamedExpr):
+                val, tgts = n.value, [n.target]
+            if isinstance(val, ast.NamedExpr):
+                val = val.value
+            if isinstance(val, ast.Name) and val.id in al:
+                for t in tgts:
+                    if isinstance(t, ast.Name) and t.id not in al:
+                        al.add(t.id)
+                        changed = True
+    return al
+
+
+def _rooted_at_self(node, aliases=('self',)):
+    """is `node` an attribute/subscript chain starting at the name `self` — or at a local that holds
+    `self` — (and longer than the name)?"""
     n = node
     depth = 0
     while isinstance(n, (ast.Attribute, ast.Subscript)):
         n = n.value
         depth += 1
-    return depth > 0 and isinstance(n, ast.Name) and n.id == 'self'
+    return depth > 0 and isinstance(n, ast.Name) and n.id in aliases
 
 
 def self_writes(cls):
@@ -46,6 +72,7 @@ def self_writes(cls):
             continue
         if any(isinstance(d, ast.Name) and d.id in ('classmethod', 'staticmethod') for d in fn.decorator_list):
             continue
+        al = self_aliases(fn)            # `self` and the locals that hold it (`me = self`)
         for node in ast.walk(fn):
             targets = []
             if isinstance(node, ast.Assign):
@@ -62,20 +89,20 @@ def self_writes(cls):
             for t in targets:
                 flat += list(ast.walk(t)) if isinstance(t, (ast.Tuple, ast.List, ast.Starred)) else [t]
             for t in flat:
-                if _rooted_at_self(t):
+                if _rooted_at_self(t, al):
                     out.append((fn.name, ast.unparse(node)[:120]))
             if isinstance(node, ast.Call):
                 f = node.func
-                if isinstance(f, ast.Attribute) and f.attr in MUTATORS and _rooted_at_self(f.value):
+                if isinstance(f, ast.Attribute) and f.attr in MUTATORS and _rooted_at_self(f.value, al):
                     out.append((fn.name, ast.unparse(node)[:120]))
-                if (isinstance(f, ast.Name) and f.id in ('setattr', 'delattr') and node.args
-                        and isinstance(node.args[0], ast.Name) and node.args[0].id == 'self'):
+                if (isinstance(f, ast.Name) and f.id in ('setattr', 'delattr', 'vars') and node.args
+                        and isinstance(node.args[0], ast.Name) and node.args[0].id in al):
                     out.append((fn.name, ast.unparse(node)[:120]))
                 if (isinstance(f, ast.Attribute) and f.attr in ('__setattr__', '__delattr__')
-                        and node.args and isinstance(node.args[0], ast.Name) and node.args[0].id == 'self'):
+                        and node.args and isinstance(node.args[0], ast.Name) and node.args[0].id in al):
                     out.append((fn.name, ast.unparse(node)[:120]))
             if (isinstance(node, ast.Attribute) and node.attr == '__dict__'
-                    and isinstance(node.value, ast.Name) and node.value.id == 'self'):
+                    and isinstance(node.value, ast.Name) and node.value.id in al):
                 out.append((fn.name, ast.unparse(node)[:120]))
     return sorted(set(out))
 
@@ -159,6 +186,48 @@ def callback_writes(cls):
                     if hit:
                         out.append((fn.name, ast.unparse(n)[:120]))
     return sorted(set(out))
+
+
+def _single_return(fn_or_lambda):
+    """the expression a lambda / a `def` consisting of `return <expr>` (after docstring and nested defs) gives"""
+    if isinstance(fn_or_lambda, ast.Lambda):
+        return fn_or_lambda.body
+    body = [b for b in fn_or_lambda.body if not (isinstance(b, ast.Expr) and isinstance(b.value, ast.Constant))
+            and not isinstance(b, ast.FunctionDef)]
+    if len(body) == 1 and isinstance(body[0], ast.Return) and body[0].value is not None:
+        return body[0].value
+    return None
+
+
+def canon_callback(call, it_name, scope_name, defs):
+    """the iterator-building call of a stage callback in a form that does not depend on the names of the callback's
+    parameters or on lambda-vs-def: the incoming iterator is `IT`; a one-argument function `t -> scope[glom](t, X, scope)`
+    is `G(X)`, `t -> scope[glom](t, X, scope) is not SKIP` is `NOTSKIP(G(X))`; everything else is printed as written"""
+    def glom_of(fn):
+        """X when fn is `t -> scope[glom](t, X, scope)` (optionally `… is not SKIP`)"""
+        if not isinstance(fn, (ast.Lambda, ast.FunctionDef)) or len(fn.args.args) != 1:
+            return None
+        t = fn.args.args[0].arg
+        e = _single_return(fn)
+        wrap = '%s'
+        if isinstance(e, ast.Compare) and len(e.ops) == 1 and isinstance(e.ops[0], ast.IsNot) \
+                and ast.unparse(e.comparators[0]) == 'SKIP':
+            e, wrap = e.left, 'NOTSKIP(%s)'
+        if isinstance(e, ast.Call) and ast.unparse(e.func) == '%s[glom]' % scope_name and len(e.args) == 3 \
+                and not e.keywords and ast.unparse(e.args[0]) == t and ast.unparse(e.args[2]) == scope_name:
+            return wrap % ('G(%s)' % ast.unparse(e.args[1]))
+        return None
+
+    def arg(a):
+        if isinstance(a, ast.Name) and a.id == it_name:
+            return 'IT'
+        f = a if isinstance(a, ast.Lambda) else defs.get(a.id) if isinstance(a, ast.Name) else None
+        g = glom_of(f) if f is not None else None
+        return g if g is not None else ast.unparse(a)
+    parts = [arg(a) for a in call.args]
+    for k in call.keywords:
+        parts.append(('**' + arg(k.value)) if k.arg is None else '%s=%s' % (k.arg, arg(k.value)))
+    return '%s(%s)' % (ast.unparse(call.func), ', '.join(parts))
 
 
 def is_self_attr(node, attr):
@@ -256,6 +325,7 @@ def extract(ctx):
     inv = find_def(core, 'Invoke')
     iter_writes, invoke_writes = [('?', 'class not found')], [('?', 'class not found')]
     cb_writes = [('?', 'class not found')]
+    cb_args, iter_extra, type_self, all_shape, first_shape = [], [('?', 'not analysed')], False, False, False
     new_list = fwd = skip_cont = stop_ret = rev = nexts = False
     copies, callbacks = [], []
     if it is None:
@@ -279,6 +349,7 @@ def extract(ctx):
                         and isinstance(v.left, ast.List) and len(v.left.elts) == 1
                         and is_self_attr(v.right, '_iter_stack'))
             fwd = is_self_attr(kws.get('sentinel'), 'sentinel')
+            type_self = ast.unparse(ret.func) in ('type(self)', 'self.__class__')
             if not is_self_attr(kws.get('subspec'), 'subspec'):
                 P.add('Iter._add_op: subspec=self.subspec not found')
         # ---- _iterate
@@ -329,10 +400,78 @@ def extract(ctx):
                         if al.name == 'target_iter' and helper_ok(find_def(ctx['src_tree']('grouping.py'), 'target_iter')):
                             helpers.append(al.asname or al.name)
             nexts = only_nexts(itf, loop, tuple(helpers))
+            # ---- every statement of `_iterate` is one of the statements the model has (anything else — a second
+            # sentinel test, an early return, a statement that touches the item — is listed)
+            iter_extra = []
+            lv = [n.id for n in ast.walk(loop.target) if isinstance(n, ast.Name)]
+            item = lv[-1] if lv else '?'
+            glom_item = 'scope[glom](%s, self.subspec, scope)' % item
+
+            def yassign(st_, value_src):
+                return (isinstance(st_, ast.Assign) and len(st_.targets) == 1 and ast.unparse(st_.targets[0]) == yname
+                        and ast.unparse(st_.value) == value_src)
+            for st_ in itf.body:
+                u = ast.unparse(st_)
+                ok = False
+                if st_ is loop:
+                    ok = not st_.orelse
+                elif isinstance(st_, ast.Expr) and isinstance(st_.value, ast.Constant):
+                    ok = True
+                elif isinstance(st_, ast.Assign) and u.startswith('iterate = scope[TargetRegistry].get_handler('):
+                    ok = True
+                elif isinstance(st_, ast.Try):
+                    ok = (len(st_.body) == 1 and ast.unparse(st_.body[0]) == 'iterator = iterate(target)'
+                          and not st_.orelse and not st_.finalbody and len(st_.handlers) == 1
+                          and len(st_.handlers[0].body) == 1 and isinstance(st_.handlers[0].body[0], ast.Raise))
+                elif isinstance(st_, ast.Assign) and isinstance(st_.value, ast.Call) \
+                        and ast.unparse(st_.value.func) in helpers and ast.unparse(st_.targets[0]) == 'iterator':
+                    ok = True
+                elif u == 'base_path = scope[Path]':
+                    ok = True
+                elif isinstance(st_, ast.Return) and st_.value is None and st_ is itf.body[-1]:
+                    ok = True
+                if not ok:
+                    iter_extra.append(('_iterate', u[:100]))
+            stop_seen = False
+            for st_ in loop.body:
+                u = ast.unparse(st_)
+                ok = False
+                if isinstance(st_, ast.Assign) and ast.unparse(st_.targets[0]) == 'scope[Path]':
+                    ok = True
+                elif yname and yassign(st_, '%s if self.subspec is T else %s' % (item, glom_item)):
+                    ok = True
+                elif yname and isinstance(st_, ast.If) and ast.unparse(st_.test) == 'self.subspec is T' \
+                        and len(st_.body) == 1 and yassign(st_.body[0], item) \
+                        and len(st_.orelse) == 1 and yassign(st_.orelse[0], glom_item):
+                    ok = True
+                elif isinstance(st_, ast.If) and is_test(st_.test, 'SKIP') and len(st_.body) == 1 \
+                        and isinstance(st_.body[0], ast.Continue):
+                    if not st_.orelse:
+                        ok = True
+                    elif len(st_.orelse) == 1 and isinstance(st_.orelse[0], ast.If) and is_stop(st_.orelse[0]) \
+                            and not stop_seen:
+                        ok, stop_seen = True, True
+                elif isinstance(st_, ast.If) and is_stop(st_) and not stop_seen:
+                    ok, stop_seen = True, True
+                elif st_ is last and yname:
+                    ok = True
+                if not ok:
+                    iter_extra.append(('_iterate loop', u[:100]))
             # the yield must come after the SKIP/STOP test
             if yname is None:
                 P.add('Iter._iterate: `yield <name>` is not the last statement of the loop')
                 skip_cont = stop_ret = False
+        # ---- the terminal methods
+        al_ = find_def(st, 'all', cls='Iter')
+        if al_ is not None:
+            body = [b for b in al_.body if not (isinstance(b, ast.Expr) and isinstance(b.value, ast.Constant))]
+            all_shape = len(body) == 1 and ast.unparse(body[0]) == 'return Pipe(self, list)'
+        fi_ = find_def(st, 'first', cls='Iter')
+        if fi_ is not None:
+            body = [b for b in fi_.body if not (isinstance(b, ast.Expr) and isinstance(b.value, ast.Constant))]
+            first_shape = len(body) == 1 and ast.unparse(body[0]) in (
+                'return (self, First(key=key, default=default))', 'return (self, First(key, default=default))',
+                'return (self, First(key, default))')
         # ---- glomit
         gl = find_def(st, 'glomit', cls='Iter')
         if gl is not None:
@@ -349,9 +488,9 @@ def extract(ctx):
             for node in ast.walk(fn):
                 if (isinstance(node, ast.Call) and isinstance(node.func, ast.Attribute)
                         and node.func.attr == '_add_op' and len(node.args) == 3):
-                    cb, call = node.args[2], None
+                    cb, call, cbfn = node.args[2], None, None
                     if isinstance(cb, ast.Lambda) and isinstance(cb.body, ast.Call):
-                        call = cb.body
+                        call, cbfn = cb.body, cb
                     elif isinstance(cb, ast.Name) and cb.id in local_defs:
                         # a local `def` whose body is `return <call>` is the same callback as the lambda
                         d = local_defs[cb.id]
@@ -360,28 +499,67 @@ def extract(ctx):
                                 and not isinstance(b, ast.FunctionDef)]
                         if len(body) == 1 and isinstance(body[0], ast.Return) and isinstance(body[0].value, ast.Call) \
                                 and len(d.args.args) == 2 and not d.decorator_list:
-                            call = body[0].value
+                            call, cbfn = body[0].value, d
                     if call is None:
                         continue
                     name = node.args[0].value if isinstance(node.args[0], ast.Constant) else '?'
                     if name != fn.name:
                         P.add('Iter.%s registers opname %r' % (fn.name, name))
                     callbacks.append((fn.name, ast.unparse(call.func)))
+                    if len(cbfn.args.args) == 2:
+                        inner = {n.name: n for n in ast.walk(cbfn) if isinstance(n, ast.FunctionDef) and n is not cbfn}
+                        cb_args.append((fn.name, canon_callback(call, cbfn.args.args[0].arg, cbfn.args.args[1].arg, inner)))
     if inv is None:
         P.add('class Invoke not found in core.py')
     else:
         invoke_writes = self_writes(inv)
+        # a private helper that does the three copy-on-write statements for all three methods:
+        #   def _h(self, op, args, kwargs): ret = self.__class__(self.func); ret._args = self._args + (op, args, kwargs);
+        #                                   ret._cur_kwargs = dict(self._cur_kwargs); return ret
+        helpers_ok = set()
+        for hfn in inv.body:
+            if isinstance(hfn, ast.FunctionDef) and [a.arg for a in hfn.args.args] == ['self', 'op', 'args', 'kwargs'] \
+                    and not hfn.decorator_list:
+                hb = [ast.unparse(b) for b in hfn.body if not (isinstance(b, ast.Expr) and isinstance(b.value, ast.Constant))]
+                if len(hb) == 4 and hb[0] in ('ret = self.__class__(self.func)', 'ret = type(self)(self.func)') \
+                        and sorted(hb[1:3]) == sorted(['ret._args = self._args + (op, args, kwargs)',
+                                                       'ret._cur_kwargs = dict(self._cur_kwargs)']) \
+                        and hb[3] == 'return ret':
+                    helpers_ok.add(hfn.name)
         for m in ('constants', 'specs', 'star'):
             fn = find_def(core, m, cls='Invoke')
             ok = False
             if fn is not None:
                 srcs = [ast.unparse(s) for s in fn.body]
+                opc = {'constants': "'C'", 'specs': "'S'", 'star': "'*'"}[m]
+                via = [s for s in fn.body if isinstance(s, (ast.Assign, ast.Return)) and isinstance(s.value, ast.Call)
+                       and isinstance(s.value.func, ast.Attribute) and is_self_attr(s.value.func, s.value.func.attr)
+                       and s.value.func.attr in helpers_ok and len(s.value.args) == 3 and not s.value.keywords
+                       and ast.unparse(s.value.args[0]) == opc]
+                if len(via) == 1:
+                    v = via[0]
+                    # `ret = self._h(op, …)` … `return ret`   or   `return self._h(op, …)`: the helper's statements, inlined
+                    if isinstance(v, ast.Return) and v is fn.body[-1]:
+                        srcs = srcs[:-1] + ['ret = self.__class__(self.func)', 'ret._args = self._args + (',
+                                            'ret._cur_kwargs = dict(self._cur_kwargs)', 'return ret']
+                    elif isinstance(v, ast.Assign) and ast.unparse(v.targets[0]) == 'ret':
+                        i = fn.body.index(v)
+                        srcs = srcs[:i] + ['ret = self.__class__(self.func)', 'ret._args = self._args + (',
+                                           'ret._cur_kwargs = dict(self._cur_kwargs)'] + srcs[i + 1:]
+                    via_helper = True
+                else:
+                    via_helper = False
                 fresh = any(s in ('ret = self.__class__(self.func)', 'ret = type(self)(self.func)') for s in srcs)
                 copy = any(s in ('ret._cur_kwargs = dict(self._cur_kwargs)',
                                  'ret._cur_kwargs = self._cur_kwargs.copy()') for s in srcs)
                 args = any(s.startswith('ret._args = self._args + (') for s in srcs)
                 returns = srcs and srcs[-1] == 'return ret'
-                ok = bool(fresh and copy and args and returns)
+                # … and that copy is the ONLY thing ever assigned to `ret._cur_kwargs` (no `= self._cur_kwargs` after it),
+                # `ret` is the only name for the new object
+                n_assign = sum(1 for n in ast.walk(fn) if isinstance(n, (ast.Assign, ast.AugAssign, ast.AnnAssign))
+                               for t in (n.targets if isinstance(n, ast.Assign) else [n.target])
+                               if ast.unparse(t).endswith('._cur_kwargs')) + (1 if via_helper else 0)
+                ok = bool(fresh and copy and args and returns and n_assign == 1)
             copies.append((m, ok))
     facts = [
         ('c17IterSelfWrites', 'List (String × String)', iter_writes),
@@ -395,6 +573,11 @@ def extract(ctx):
         ('c17GlomitReversed', 'Bool', bool(rev)),
         ('c17Callbacks', 'List (String × String)', callbacks),
         ('c17CallbackWrites', 'List (String × String)', cb_writes),
+        ('c17CallbackArgs', 'List (String × String)', cb_args),
+        ('c17IterateExtra', 'List (String × String)', iter_extra),
+        ('c17AddOpTypeSelf', 'Bool', bool(type_self)),
+        ('c17AllIsPipeList', 'Bool', bool(all_shape)),
+        ('c17FirstShape', 'Bool', bool(first_shape)),
     ]
     return [('C17Facts', 'Iter / Invoke builder methods: writes to self, _add_op shape, _iterate SKIP/STOP '
              'branches, glomit fold order, callback functions', facts)]
